@@ -1392,6 +1392,12 @@ func (v *Verifier) rangeNext(st *State, x *ssa.Next) {
 			return tImp(tNot(ok), tImp(tAnd(tNot(tEq(m, tNilP)), mk("Bool", "select", domA, k2)), mk("Bool", "select", vis, k2)))
 		}})
 	}
+	if v.setTheory && ks == "String" {
+		// the same exhaustion fact as one array equation (every key of the map is in the visited set), for contracts
+		// that speak about the visited set as a whole
+		v.usesSetTheory()
+		st.assume(tImp(tAnd(tNot(ok), tNot(tEq(it.m, tNilP))), tSubset(domA, it.visited)))
+	}
 	it.visited = mk(it.visited.Sort, "store", it.visited, k, tTrue)
 	v.addTypeFacts(st, val, mt.Elem())
 	f.tuples[x] = []*Term{ok, k, val}
